@@ -4,12 +4,15 @@ import Driver.OpsBits
 import Driver.OpsSizes
 import Driver.OpsBitfields
 import Driver.OpsMerkle
+import Driver.OpsConv
+import Driver.OpsMisc
+import Driver.OpsTree
 import Driver.OpsHist
 open Driver
 
 /-- stateless op families: each returns `none` for ops it does not know -/
 def families : List (String → List String → List String → Option (Except String (String × String))) :=
-  [ OpsSizes.handle, OpsSpec.handle, OpsBits.handle, OpsBitfields.handle, OpsMerkle.handle ]
+  [ OpsSizes.handle, OpsSpec.handle, OpsBits.handle, OpsBitfields.handle, OpsMerkle.handle, OpsConv.handle, OpsMisc.handle, OpsTree.handle ]
 
 /-- dispatch one line `op args… => impl observation…`: returns `<model> ## <verdict>` -/
 def handleLine (hs : OpsHist.HState) (line : String) : OpsHist.HState × String :=
